@@ -11,3 +11,4 @@ import LettreVerif.Props.C11
 #print axioms LV.C11.parse_message
 #print axioms LV.C11.checked_tree_reads_back
 #print axioms LV.C11.toplevel_leaf_gets_crlf
+#print axioms LV.C11.content_type_written_literally
